@@ -159,7 +159,7 @@ def work(item, opts):
 
 def check(prop, tier, seed):
     rep = Report(prop, tier, seed)
-    per_opt = 4 if tier == "quick" else 40
+    per_opt = 4 if tier == "quick" else 80
     n = 84 * per_opt
     cases = [make_case(seed, k) for k in range(n)]
     for rep_ in range(2 if tier == "quick" else 8):
